@@ -80,7 +80,9 @@ func (p *NumInfo) decimal(v *apd.Decimal) error {
 		return p.errorf("invalid number: %v", err)
 	}
 	if p.mul != 0 {
-		_, _ = baseContext.Mul(v, v, mulToRat[p.mul])
+		// Multiply exactly: a mantissa with many digits must not be
+		// rounded to the precision of baseContext.
+		_, _ = apd.BaseContext.Mul(v, v, mulToRat[p.mul])
 		cond, _ := baseContext.RoundToIntegralExact(v, v)
 		if cond.Inexact() {
 			return p.errorf("number cannot be represented as int")
